@@ -42,9 +42,9 @@ ASSUMPTIONS = [
 OUTSIDE = ["more pre-emptions than the bound", "three or more processes (thorough: none yet)", "pre-emption inside a primitive operation", "threads inside one process"]
 BOUNDS = {
     "quick": {"processes": 2, "preemptions": "1 switch point anywhere (either process first)", "write granularity": "each write = 2 steps (split at half)", "payload": "symbolic ASCII str <= 1 char"},
-    "thorough": {"processes": 2, "preemptions": "all scenarios: 2 switch points anywhere", "write granularity": "each write = 2 steps", "payload": "symbolic ASCII str <= 1 char"},
+    "thorough": {"processes": 2, "preemptions": "all scenarios: 1 switch point anywhere (as quick), then 2 switch points anywhere in 16 chunks per scenario and first process, as many chunks as the wall budget of the tier allows (the evidence lists the chunks not run)", "write granularity": "each write = 2 steps", "payload": "symbolic ASCII str <= 1 char"},
 }
-BUDGET_S = {"thorough": 1200}  # wall budget of the thorough tier: queries not started by then are reported as not run
+BUDGET_S = {"thorough": 1500}  # wall budget of the thorough tier: queries not started by then are reported as not run
 LAST_DETAIL = [""]
 INT_DIR = "/s/x/int"
 
@@ -208,17 +208,23 @@ def queries(tier):
     qs = []
     h.install_clock()
     fastenv.install()
-    for name in ("WW", "WR", "WW2"):
-        total = total_steps(name)
-        k = 2 if tier == "thorough" else 1
-        nchunks = 4 if k == 1 else (8 if tier == "quick" else 16)
-        size = max(1, -(-total // nchunks))
-        for first in (0, 1):
-            lo = 1
-            while lo < total:
-                hi = min(lo + size, total)
-                qs.append({"id": "%s.first%d.s%02d-%02d" % (name, first, lo, hi - 1), "fn": "sched", "sel": {"scenario": name, "first": first, "k": k, "lo": lo, "hi": hi, "total": total}, "timeout": 400 if tier == "quick" else 2400})
-                lo = hi
+    # quick: one preemption (k = 1), every switch point. thorough: the same first (they sort first: cost), then two preemptions
+    # (k = 2) in 16 chunks per scenario and first process, as far as the wall budget of the tier allows - the evidence lists the
+    # chunks that were not run
+    for k in ((1,) if tier == "quick" else (1, 2)):
+        for name in ("WW", "WR", "WW2"):
+            total = total_steps(name)
+            nchunks = 4 if k == 1 else 16
+            size = max(1, -(-total // nchunks))
+            for first in (0, 1):
+                lo = 1
+                while lo < total:
+                    hi = min(lo + size, total)
+                    q = {"id": "%s%s.first%d.s%02d-%02d" % (name, "" if k == 1 else ".k2", first, lo, hi - 1), "fn": "sched", "sel": {"scenario": name, "first": first, "k": k, "lo": lo, "hi": hi, "total": total}, "timeout": 400 if k == 1 else 1000}
+                    if k == 1 and tier != "quick":
+                        q["cost"] = 100000
+                    qs.append(q)
+                    lo = hi
     return qs
 
 
